@@ -267,6 +267,13 @@ class C19(PropertyCheck):
         for x, vx in optvals.items():
             for y, vy in optvals.items():
                 lj.append(('optional', f'to_str(({x} == {y}, !({x} == {y}) || hash({x}) == hash({y})))', f's:({"true" if vx == vy else "false"}, true)'))
+        # hashes stay inside [0, 2^64) also when a component's own hash is the largest admissible one (hash(-1) = hash(2^64 - 1) = 2^64 - 1),
+        # and such values still work as set members / mapping keys and inside tuples and sequences
+        for x, ty in [('some(0 - 1)', 'Optional<int>'), ('some(18446744073709551615)', 'Optional<int>'), ('some(some(0 - 2))', 'Optional<Optional<int>>'),
+                      ('some(some(0 - 1))', 'Optional<Optional<int>>'), ('(0 - 1, 0 - 1)', '(int, int)'), ('[0 - 1, 18446744073709551615]', 'Sequence<int>'),
+                      ('(some(0 - 1), 1)', '(Optional<int>, int)'), ('[some(0 - 1)]', 'Sequence<Optional<int>>'), ('some((0 - 1, "x"))', 'Optional<(int, str)>')]:
+            lj.append(('hash-range', f'to_str((hash({x}) >= 0 && hash({x}) < 18446744073709551616, set<{ty}>().add({x}).contains({x}), mapping<{ty}>().set({x}, 1).lookup({x}) == some(1), hash({x}) == hash({x})))',
+                       's:(true, true, true, true)'))
         stacks = {'stack().push(1).push(2)': [1, 2], 'stack().push(1).push(2).push(3).tail()': [1, 2], 'stack().push(2).push(1)': [2, 1], 'stack().push(1)': [1]}
         for x, vx in stacks.items():
             for y, vy in stacks.items():
